@@ -75,8 +75,8 @@ theorem compile_total_call_ls {self h : String} {args : List Expr} (hh : (h != "
   · rw [if_neg hc]
     exact ⟨_, gs, rfl, by simp, KeepFns.refl _, Nat.le_refl _, by lsin⟩
 
-/-- a statement before the last one of a body -/
-theorem total_stmt {ex : Bool} {self : String} {e : Expr} (he : (if ex then Fx [] self e else Ff true self e) = true)
+/-- a statement before the last one of a body: a form of F2 resp. Fx -/
+theorem total_stmt0 {ex : Bool} {self : String} {e : Expr} (he : (if ex then Fx [] self e else Ff true self e) = true)
     (isFn : Nat → Bool) (c : Ctx) (gs : GS) (hfn : FnameOk self c) (hex : ex = true → gs.loopstack = []) :
     ∃ code t gs', (compile isFn c e).run gs = .ok ((code, t), gs') ∧ code ≠ [] ∧ TotX gs gs' code := by
   cases ex with
@@ -151,18 +151,55 @@ theorem compile_total_Fz : ∀ (ex : Bool) (self : String) (e : Expr), Fz ex sel
       lsin
   | ex, self, .for_ l i t st b, he, isFn, c, gs, hfn, hex => by
     rw [Fz] at he
-    exact total_stmt he isFn c gs hfn hex
+    exact total_stmt0 he isFn c gs hfn hex
   | ex, self, .int v, he, isFn, c, gs, hfn, hex | ex, self, .bool v, he, isFn, c, gs, hfn, hex
   | ex, self, .str v, he, isFn, c, gs, hfn, hex | ex, self, .nilLit, he, isFn, c, gs, hfn, hex
   | ex, self, .sym x, he, isFn, c, gs, hfn, hex | ex, self, .arr es, he, isFn, c, gs, hfn, hex
   | ex, self, .def_ x e, he, isFn, c, gs, hfn, hex | ex, self, .set_ x e, he, isFn, c, gs, hfn, hex
   | ex, self, .and_ es, he, isFn, c, gs, hfn, hex | ex, self, .or_ es, he, isFn, c, gs, hfn, hex
-  | ex, self, .fn _ _ _, he, isFn, c, gs, hfn, hex | ex, self, .defn _ _ _ _, he, isFn, c, gs, hfn, hex => by
+  | ex, self, .fn _ _ _, he, isFn, c, gs, hfn, hex => by
     rw [Fz] at he
     exact total_of_Ff he isFn c gs hfn
+  | ex, self, .defn name ps rest body, he, isFn, c, gs, hfn, hex => by
+    rw [Fz] at he
+    simp only [Bool.or_eq_true] at he
+    rcases he with he | he
+    · exact total_of_Ff he isFn c gs hfn
+    · simp only [Bool.and_eq_true, bne_iff_ne, ne_eq, decide_eq_true_eq, Bool.not_eq_true', List.isEmpty_eq_false_iff] at he
+      obtain ⟨b, tl, g2, hb, _, hk2⟩ := compileBegin_total_Fz ex name body he.1.2 he.2 isFn (bodyCtx c gs name ps rest body)
+        (gsAlloc isFn gs name ps rest) (bodyCtx_funcname c gs name ps rest body) hex
+      exact ⟨_, _, _, compile_defn_eq isFn c name ps rest body gs g2 b tl he.1.1.1.1.2 hb, by simp,
+        keepFns_fin isFn gs g2 _ ps rest b hk2.1, hk2.2.1, by lsin⟩
   | ex, self, .assign _ _, he, _, _, _, _, _ | ex, self, .bad _, he, _, _, _, _, _
   | ex, self, .break_ _, he, _, _, _, _, _ | ex, self, .continue_ _, he, _, _, _, _, _ => by
     simp [Fz] at he
+/-- a statement before the last one of a body -/
+theorem total_stmt : ∀ (ex : Bool) (self : String) (e : Expr), Fs ex self e = true → ∀ isFn c gs, FnameOk self c →
+    (ex = true → gs.loopstack = []) →
+    ∃ code t gs', (compile isFn c e).run gs = .ok ((code, t), gs') ∧ code ≠ [] ∧ TotX gs gs' code
+  | ex, self, .defn name ps rest body, he, isFn, c, gs, hfn, hex => by
+    rw [Fs] at he
+    simp only [Bool.or_eq_true] at he
+    rcases he with he | he
+    · exact total_stmt0 he isFn c gs hfn hex
+    · simp only [Bool.and_eq_true, bne_iff_ne, ne_eq, decide_eq_true_eq, Bool.not_eq_true', List.isEmpty_eq_false_iff] at he
+      obtain ⟨b, tl, g2, hb, _, hk2⟩ := compileBegin_total_Fz ex name body he.1.2 he.2 isFn (bodyCtx c gs name ps rest body)
+        (gsAlloc isFn gs name ps rest) (bodyCtx_funcname c gs name ps rest body) hex
+      exact ⟨_, _, _, compile_defn_eq isFn c name ps rest body gs g2 b tl he.1.1.1.1.2 hb, by simp,
+        keepFns_fin isFn gs g2 _ ps rest b hk2.1, hk2.2.1, by lsin⟩
+  | ex, self, .call _ _, he, isFn, c, gs, hfn, hex | ex, self, .begin_ _, he, isFn, c, gs, hfn, hex
+  | ex, self, .cond _ _, he, isFn, c, gs, hfn, hex | ex, self, .newScope _, he, isFn, c, gs, hfn, hex
+  | ex, self, .let_ _ _ _, he, isFn, c, gs, hfn, hex | ex, self, .for_ _ _ _ _ _, he, isFn, c, gs, hfn, hex
+  | ex, self, .int _, he, isFn, c, gs, hfn, hex | ex, self, .bool _, he, isFn, c, gs, hfn, hex
+  | ex, self, .str _, he, isFn, c, gs, hfn, hex | ex, self, .nilLit, he, isFn, c, gs, hfn, hex
+  | ex, self, .sym _, he, isFn, c, gs, hfn, hex | ex, self, .arr _, he, isFn, c, gs, hfn, hex
+  | ex, self, .def_ _ _, he, isFn, c, gs, hfn, hex | ex, self, .set_ _ _, he, isFn, c, gs, hfn, hex
+  | ex, self, .and_ _, he, isFn, c, gs, hfn, hex | ex, self, .or_ _, he, isFn, c, gs, hfn, hex
+  | ex, self, .fn _ _ _, he, isFn, c, gs, hfn, hex | ex, self, .assign _ _, he, isFn, c, gs, hfn, hex
+  | ex, self, .bad _, he, isFn, c, gs, hfn, hex | ex, self, .break_ _, he, isFn, c, gs, hfn, hex
+  | ex, self, .continue_ _, he, isFn, c, gs, hfn, hex => by
+    rw [Fs] at he
+    exact total_stmt0 he isFn c gs hfn hex
 theorem compileBegin_total_Fz : ∀ (ex : Bool) (self : String) (es : List Expr), es ≠ [] → FzList ex self es = true →
     ∀ isFn c gs, FnameOk self c → (ex = true → gs.loopstack = []) →
     ∃ code t gs', (compileBegin isFn c es).run gs = .ok ((code, t), gs') ∧ code ≠ [] ∧ TotX gs gs' code
@@ -175,7 +212,7 @@ theorem compileBegin_total_Fz : ∀ (ex : Bool) (self : String) (es : List Expr)
     rw [FzList] at he
     simp only [Bool.and_eq_true] at he
     have hfn' : FnameOk self { c with tail := false } := hfn
-    obtain ⟨a, ta, g1, ha, hane, hf1⟩ := total_stmt he.1 isFn { c with tail := false } gs hfn' hex
+    obtain ⟨a, ta, g1, ha, hane, hf1⟩ := total_stmt ex self e he.1 isFn { c with tail := false } gs hfn' hex
     obtain ⟨b, tb, g2, hb, _, hf2⟩ := compileBegin_total_Fz ex self (e' :: es) (by simp) he.2 isFn c g1 hfn
       (fun h => by rw [hf1.1.loopstack]; exact hex h)
     refine ⟨a ++ (if a.isEmpty then [] else [.pop]) ++ b, tb, g2, ?_, by simp [hane],
@@ -196,7 +233,7 @@ theorem compileNewScope_total_Fz : ∀ (ex : Bool) (self : String) (es : List Ex
     rw [FzList] at he
     simp only [Bool.and_eq_true] at he
     have hfn' : FnameOk self { c with tail := false } := hfn
-    obtain ⟨a, ta, g1, ha, hane, hf1⟩ := total_stmt he.1 isFn { c with tail := false } gs hfn' hex
+    obtain ⟨a, ta, g1, ha, hane, hf1⟩ := total_stmt ex self e he.1 isFn { c with tail := false } gs hfn' hex
     obtain ⟨b, tb, g2, hb, _, hf2⟩ := compileNewScope_total_Fz ex self (e' :: es) (by simp) he.2 isFn c oldtail g1 hfn
       (fun h => by rw [hf1.1.loopstack]; exact hex h)
     refine ⟨a ++ [.pop] ++ b, tb, g2, ?_, by simp, TotX.seq hf1 hf2 (fun x y hx hy => by lsin)⟩
@@ -228,10 +265,10 @@ theorem compileArms_total_Fz : ∀ (ex : Bool) (self : String) (arms : List (Exp
           (hin1 x hx).2.mono (Nat.le_refl _) (Nat.le_trans hf2.2.1 hf3.2.1)⟩
 end
 
-theorem tot_stmt {ex : Bool} {self : String} {e : Expr} (he : (if ex then Fx [] self e else Ff true self e) = true)
+theorem tot_stmt {ex : Bool} {self : String} {e : Expr} (he : Fs ex self e = true)
     {isFn c gs r} (hfn : FnameOk self c) (hex : ex = true → gs.loopstack = []) (h : (compile isFn c e).run gs = .ok r) :
     r.1.1 ≠ [] ∧ TotX gs r.2 r.1.1 := by
-  obtain ⟨code, t, g1, h1, hne, hk⟩ := total_stmt he isFn c gs hfn hex
+  obtain ⟨code, t, g1, h1, hne, hk⟩ := total_stmt ex self e he isFn c gs hfn hex
   rw [h1] at h; injection h with h; subst h; exact ⟨hne, hk⟩
 
 theorem compile_tot_Fz {ex : Bool} {self : String} {e : Expr} (he : Fz ex self e = true) {isFn c gs r} (hfn : FnameOk self c)
@@ -870,13 +907,33 @@ theorem simF_of_simX_nil {code : List Instr} {m : Nat → Nat} {s : St} {rs : Re
   | brk l rs' => obtain ⟨γ, hγ, _⟩ := h; cases l <;> simp [findCtx] at hγ
   | cont l rs' => obtain ⟨γ, hγ, _⟩ := h; cases l <;> simp [findCtx] at hγ
 
-/-- a statement that is not in tail position: a form of F2, or (`ex`) one whose loops `break`/`continue` -/
+/-- a `defn` whose body is in `FzList` (at top level, or nested in a function body) -/
+theorem simF_defnZ {n : Nat} {ex : Bool} {name : String} {ps : List String} {rest : Option String} {body : List Expr}
+    (hrest : okRest rest = true) (hname : okName name = true) (hne : name ≠ "") (hnd : (ps ++ rest.toList).Nodup)
+    (hps : ∀ p ∈ ps, okParam p = true) (hbody : body ≠ []) (hfz : FzList ex name body = true)
+    (isFn : Nat → Bool) (c : Ctx) (gs : GS) (hex : ex = true → gs.loopstack = [])
+    (r : (List Instr × Bool) × GS) (hc : (compile isFn c (.defn name ps rest body)).run gs = .ok r)
+    (m : Nat → Nat) (s : St) (rs : Ref.St) (env : Nat) (pre post : List Instr)
+    (hrel : RelF m s rs env) (hgen : GenOk gs r.2 s) (hseg : Seg s pre r.1.1 post) :
+    SimF r.1.1 m s rs env (Ref.eval n (.defn name ps rest body) env rs) := by
+  cases n with
+  | zero => rw [Ref.eval]; trivial
+  | succ k =>
+    obtain ⟨b, tl, g2, hb, _, hk2⟩ := compileBegin_total_Fz ex name body hbody hfz isFn (bodyCtx c gs name ps rest body)
+      (gsAlloc isFn gs name ps rest) (bodyCtx_funcname c gs name ps rest body) hex
+    exact simF_defn_core name ps rest body hrest hname hne hnd hps hbody hfz hex isFn c g2 b tl hb hk2.1 r hc hrel hgen hseg
+
+/-- a statement that is not in tail position: a form of F2, or (`ex`) one whose loops `break`/`continue`, or a nested
+`defn` with self tail calls / loops with exits in its body -/
 theorem simF_stmt {n : Nat} (hFE : FClaimE n) (hXE : XClaimE n) {ex : Bool} {self : String} {e : Expr}
-    (he : (if ex then Fx [] self e else Ff true self e) = true) (isFn : Nat → Bool) (c : Ctx) (gs : GS)
+    (he : Fs ex self e = true) (isFn : Nat → Bool) (c : Ctx) (gs : GS)
     (r : (List Instr × Bool) × GS) (hc : (compile isFn c e).run gs = .ok r) (hfn : FnameOk self c)
     (hex : ex = true → gs.loopstack = []) (m : Nat → Nat) (s : St) (rs : Ref.St) (env : Nat) (pre post : List Instr)
     (hrel : RelF m s rs env) (hgen : GenOk gs r.2 s) (hlo : LsOut pre gs.loops.length r.2.loops.length)
     (hseg : Seg s pre r.1.1 post) : SimF r.1.1 m s rs env (Ref.eval n e env rs) := by
+  rcases fs_cases he with he | ⟨name, ps, rest, body, rfl, hrest, hname, hne, hnd, hps, hbody, hfz⟩
+  rotate_left
+  · exact simF_defnZ hrest hname hne hnd hps hbody hfz isFn c gs hex r hc m s rs env pre post hrel hgen hseg
   cases ex with
   | false => exact hFE true self e (by simpa using he) isFn c gs r hc hfn m s rs env pre post hrel (fun _ => hgen) hseg
   | true =>
@@ -1223,7 +1280,7 @@ theorem tclaimE_succ {n : Nat} (hFE1 : FClaimE (n + 1)) (hXE1 : XClaimE (n + 1))
       | cont l rs2 => rw [h1] at hUl; exact hUl.elim
   | for_ l i t st b =>
     rw [Fz] at he
-    exact (simF_stmt hFE1 hXE1 he isFn c gs r hc hfn hex m s rs cenv pre post hrel hgen hlo hseg).toT
+    exact (simF_stmt hFE1 hXE1 (fs_of_stmt he) isFn c gs r hc hfn hex m s rs cenv pre post hrel hgen hlo hseg).toT
   | int v => rw [Fz] at he; exact hff he
   | bool v => rw [Fz] at he; exact hff he
   | str v => rw [Fz] at he; exact hff he
@@ -1235,7 +1292,15 @@ theorem tclaimE_succ {n : Nat} (hFE1 : FClaimE (n + 1)) (hXE1 : XClaimE (n + 1))
   | and_ es => rw [Fz] at he; exact hff he
   | or_ es => rw [Fz] at he; exact hff he
   | fn ps' rest body => rw [Fz] at he; exact hff he
-  | defn name ps' rest body => rw [Fz] at he; exact hff he
+  | defn name ps' rest' body =>
+    rw [Fz] at he
+    simp only [Bool.or_eq_true] at he
+    rcases he with he | he
+    · exact hff he
+    · simp only [Bool.and_eq_true, bne_iff_ne, ne_eq, decide_eq_true_eq, Bool.not_eq_true', List.isEmpty_eq_false_iff,
+        List.all_eq_true] at he
+      exact (simF_defnZ he.1.1.1.1.1.1 he.1.1.1.1.1.2 he.1.1.1.1.2 he.1.1.1.2 he.1.1.2 he.1.2 he.2 isFn c gs hex r hc m s rs cenv
+        pre post hrel hgen hseg).toT
   | assign _ _ => simp [Fz] at he
   | bad _ => simp [Fz] at he
   | break_ _ => simp [Fz] at he
